@@ -1,4 +1,4 @@
-import Tw.Proofs.NetPending
+import Tw.Proofs.NetLazy
 
 /-!
 # C20 — the multi-peer endpoint keeps peers isolated
@@ -175,6 +175,45 @@ theorem runFor_is_restriction (a : Nat) (h : History) (net net' : Net) (outs : L
         obtain ⟨tr, h1, h2⟩ := ih net1 net2 outs2 hrest
         refine ⟨_, by simp only [runFor, hst, h1]; rw [hr.1], ?_⟩
         rw [← hr.2]; simp [h2]
+
+/-! ## results that are not drained -/
+
+/-- **A `ReceivePacket` that is dropped half-way** (the application pulled `k` events): everything
+`Net::feed` does — the connection's state including the advanced `ack`, the removal of the peer on a
+`Disconnect`, the datagrams sent, the warnings — is done, exactly as if the result had been drained;
+the application has seen a prefix of the events and the rest is lost to it (vital chunks among them
+are acknowledged and will not be resent: draining is the application's obligation, H3 of C01). -/
+theorem undrained_receive_packet (env : Env) (net net' : Net) (a : Nat) (rd : Option Bool → Option Packet)
+    (k : Nat) (r : Ret) (o' : Out) (h : stepLazy env net (.feed a rd) (some k) = .ok (net', r, o')) :
+    ∃ o, step env net (.feed a rd) = .ok (net', r, o) ∧ o'.sent = o.sent ∧ o'.warns = o.warns ∧
+      o'.events = o.events.take k := by
+  simp only [stepLazy] at h
+  cases hs : step env net (.feed a rd) with
+  | error f => simp [hs] at h
+  | ok v =>
+    obtain ⟨n, r0, o⟩ := v
+    simp only [hs, Except.ok.injEq, Prod.mk.injEq] at h
+    obtain ⟨h1, h2, h3⟩ := h
+    subst h1 h2 h3
+    exact ⟨o, rfl, rfl, rfl, rfl⟩
+
+/-- **A `Tick` that is never polled does nothing** (no peer ticks, nothing is sent, no deadline
+moves); polled at least once it is the drained tick, because the first `next()` runs through all
+peers when `Callback::send` cannot fail. -/
+theorem unpolled_tick (env : Env) (net : Net) (k : Nat) :
+    stepLazy env net .tick (some 0) = .ok (net, .unit, {}) ∧
+    stepLazy env net .tick (some (k + 1)) = step env net .tick ∧
+    stepLazy env net .tick none = step env net .tick := ⟨rfl, rfl, rfl⟩
+
+/-- **Histories with partly consumed results**: same final state, same datagrams, same warnings as
+the drained history (unpolled ticks removed); the events the application saw are a sub-sequence of
+the drained run's.  So every theorem of this file about `run` / `runFor` (`refinement`,
+`invariant_along_histories`, …) speaks about such applications too, through `drainedHist`. -/
+theorem lazy_histories (lh : LHistory) (net net' : Net) (outs' : List (Ret × Out))
+    (h : runLazy net lh = .ok (net', outs')) :
+    ∃ outs, run net (drainedHist lh) = .ok (net', outs) ∧ allSent outs' = allSent outs ∧
+      allWarns outs' = allWarns outs ∧ (allEvents outs').Sublist (allEvents outs) :=
+  runLazy_drained lh net net' outs' h
 
 /-! ## unknown addresses -/
 
